@@ -155,15 +155,18 @@ class World:
     """One app instance; long-lived per worker process."""
 
     _instance = None
+    _instances: dict = {}
 
     @classmethod
     def shared(cls, **kw) -> 'World':
-        key = tuple(sorted(kw.items()))
-        if cls._instance is None or cls._instance._key != key:
-            if cls._instance is not None:
-                cls._instance.close()
-            cls._instance = World(**kw)
-            cls._instance._key = key
+        """One long-lived world per distinct configuration and process."""
+        key = tuple(sorted((k, tuple(v) if isinstance(v, (list, tuple)) else v) for k, v in kw.items()))
+        if cls._instance is None and key in cls._instances:
+            del cls._instances[key]         # invalidated (see request(): a timeout that could not be repaired)
+        if key not in cls._instances:
+            cls._instances[key] = World(**kw)
+            cls._instances[key]._key = key
+        cls._instance = cls._instances[key]
         return cls._instance
 
     def __init__(self, streams=('bbb', 'tears', 'synirr', 'synoff', 'synnot', 'synenc', 'synwild'), users=True, writable_blobs=False, with_subs=True,
